@@ -21,20 +21,22 @@ def range_hi_ok(self, v):
 RANGE_SHAPE = ["is_object(self)", "has_attr(self, 'min') and has_attr(self, 'max') and has_attr(self, 'min_included') and has_attr(self, 'max_included') and has_attr(self, 'msg')",
                "self.min is None or is_number(self.min)", "self.max is None or is_number(self.max)",
                "is_bool(self.min_included) and is_bool(self.max_included)", "self.msg is None or is_str(self.msg)",
-               "is_number(v)"]
+               "is_number(v) or is_str(v) or is_none(v)"]
 
+# a value that cannot be ordered against the bounds (text, None; complex numbers are outside the value model) is rejected with the SAME validation
+# error, never a TypeError (this clause failed before the fix e01c6b0)
 contract(V + "Range.__call__", props=["C20"],
     requires=RANGE_SHAPE,
-    ensures=["result is v", "range_lo_ok(self, v) and range_hi_ok(self, v)"],
-    exsures={"RangeInvalid": "not (range_lo_ok(self, v) and range_hi_ok(self, v))"},
+    ensures=["result is v", "(self.min is None and self.max is None) or (is_number(v) and range_lo_ok(self, v) and range_hi_ok(self, v))"],
+    exsures={"RangeInvalid": "not (self.min is None and self.max is None) and not (is_number(v) and range_lo_ok(self, v) and range_hi_ok(self, v))"},
     modifies=[],
     covers=["self.min is None and self.max is not None", "self.min is not None and not self.min_included", "self.max is not None and not self.max_included"])
 
 contract(V + "Length.__call__", props=["C20"],
     requires=["is_object(self)", "has_attr(self, 'min') and has_attr(self, 'max') and has_attr(self, 'msg')", "self.min is None or is_int(self.min)", "self.max is None or is_int(self.max)",
-              "self.msg is None or is_str(self.msg)", "is_seq(v)"],
-    ensures=["result is v", "self.min is None or len(v) >= self.min", "self.max is None or len(v) <= self.max"],
-    exsures={"LengthInvalid": "(self.min is not None and len(v) < self.min) or (self.max is not None and len(v) > self.max)"},
+              "self.msg is None or is_str(self.msg)", "is_seq(v) or is_number(v) or is_none(v)"],
+    ensures=["result is v", "(self.min is None and self.max is None) or is_seq(v)", "self.min is None or len(v) >= self.min", "self.max is None or len(v) <= self.max"],
+    exsures={"LengthInvalid": "not (self.min is None and self.max is None) and (not is_seq(v) or (self.min is not None and len(v) < self.min) or (self.max is not None and len(v) > self.max))"},
     modifies=[])
 
 CONTAINER_SHAPE = ["is_object(self)", "has_attr(self, 'container') and has_attr(self, 'msg')", "is_list(self.container) and allocated(self.container)",
